@@ -90,7 +90,7 @@ def build(parts, env, decode_entities=False):
             src.append('${' + p[1] + '}')
             e = p[1]
             if decode_entities:
-                e = html.unescape(e)
+                e = exprs.decode_terminated(e)
             exp.append(exprs.to_text(exprs.evaluate('(' + e.strip() + ')' if '\n' in e else e, env)))
     s = ''.join(src)
     e = ''.join(exp)
@@ -216,9 +216,9 @@ def classify(parts, env, src, exp, got):
     # the disagreement is attributed to the mechanism only if the real engine renders that
     # template to exactly what was observed AND (when it renders at all) that output is what the
     # by-construction oracle expects for the decoded template.
-    if any(k == 'expr' and html.unescape(t) != t for k, t in parts) and isinstance(got, str):
+    if any(k == 'expr' and exprs.decode_terminated(t) != t for k, t in parts) and isinstance(got, str):
         from chameleon import PageTextTemplate
-        alt_parts = [(k, html.unescape(t) if k == 'expr' else norm_nl(t)) for k, t in parts]
+        alt_parts = [(k, exprs.decode_terminated(t) if k == 'expr' else norm_nl(t)) for k, t in parts]
         alt_src = ''.join(t if k == 'lit' else '${' + t + '}' for k, t in alt_parts)
         alt_got = render_real(PageTextTemplate, alt_src, env)
         try:
